@@ -171,6 +171,68 @@ pub fn run(ctx: &mut Ctx) {
             }
         }
     }
+    // ---- TCP: a ClientHello whose handshake message is spread over two TLS records (legal TLS, the server side
+    // of the handshake reassembles it; the endpoint's own look at the first bytes may not be able to determine the
+    // random): the rules must then be given the true random or none at all - never some other value --------------
+    let frag_points: Vec<usize> = if ctx.thorough() { vec![1, 3, 4, 5, 6, 7, 20, 37, 38, 39, 40, 70, 71, 100, 150] } else { vec![1, 4, 6, 20, 38, 39, 100] };
+    for k in frag_points {
+        for alpn in [&b"http/1.1"[..], &b"h2"[..]] {
+            let desc = format!("rustls client (ALPN {}) whose ClientHello message is split over two TLS records after {} bytes", String::from_utf8_lossy(alpn), k);
+            ctx.stat("live_tcp_fragmented_hellos");
+            let before = verif::hooks::STATE.lock().unwrap().rule_inputs.len();
+            let mut config = rustls::ClientConfig::builder().with_safe_defaults().with_custom_certificate_verifier(Arc::new(NoVerify)).with_no_client_auth();
+            config.alpn_protocols.push(alpn.to_vec());
+            let mut conn = rustls::ClientConnection::new(Arc::new(config), "localhost".try_into().unwrap()).unwrap();
+            let mut hello = vec![];
+            while conn.wants_write() {
+                if conn.write_tls(&mut hello).is_err() {
+                    break;
+                }
+            }
+            if hello.len() < 48 || hello[0] != 22 || hello[5] != 1 || 5 + u16::from_be_bytes([hello[3], hello[4]]) as usize != hello.len() || k >= hello.len() - 5 {
+                ctx.oracle_failure("harness", &format!("{}: unexpected shape of the client's first flight", desc));
+                continue;
+            }
+            let truth = hello[11..43].to_vec();
+            let body = &hello[5..];
+            let mut framed = vec![];
+            for part in [&body[..k], &body[k..]] {
+                framed.extend_from_slice(&[22, hello[1], hello[2]]);
+                framed.extend_from_slice(&(part.len() as u16).to_be_bytes());
+                framed.extend_from_slice(part);
+            }
+            let Ok(mut s) = TcpStream::connect(ep.addr) else {
+                ctx.oracle_failure("connect_failed", &desc);
+                continue;
+            };
+            let _ = s.set_nodelay(true);
+            let _ = s.set_read_timeout(Some(Duration::from_secs(3)));
+            if s.write_all(&framed).is_err() {
+                ctx.oracle_failure("connect_failed", &desc);
+                continue;
+            }
+            let mut ok = true;
+            while conn.is_handshaking() {
+                if let Err(e) = conn.complete_io(&mut s) {
+                    // refusing such a hello outright is not what this property is about; what the rules were given is
+                    ctx.stat("live_tcp_fragmented_hello_refused");
+                    ctx.notes.push(format!("{}: handshake not completed ({})", desc, e));
+                    ok = false;
+                    break;
+                }
+            }
+            match wait_rule_input(before) {
+                None if ok => ctx.oracle_failure("no_rule_input", &format!("{}: the handshake completed but the connection rules were never consulted", desc)),
+                None => {}
+                Some((_, None)) => ctx.stat("live_tcp_fragmented_hello_random_absent"),
+                Some((_, Some(r))) if r != truth => ctx.oracle_failure(
+                    "wrong_random",
+                    &format!("{}: the rules were given client random [{}] ({} bytes), the ClientHello carried {}; a random that cannot be determined must be reported absent", desc, hex(&r), r.len(), hex(&truth)),
+                ),
+                Some(_) => ctx.stat("live_tcp_fragmented_hello_random_exact"),
+            }
+        }
+    }
     // ---- QUIC: the value is the one of the completed handshake ---------------------------------------------------
     let n_quic = if ctx.thorough() { 42 } else { 9 };
     for k in 0..n_quic {
